@@ -52,6 +52,7 @@ CONSTANTS Preset,     \* "" : one scenario family, given by the constants below;
           NVals,      \* value tokens of the comparing operator
           Disposes,   \* TRUE: the subscriber's dispose instant ranges over 1..MaxT as well as NEVER
           DisposeIn,  \* k > 0: the subscriber may also dispose from inside its own j-th on_next, j = 1..k
+          Sync,       \* TRUE: notifications at instant 0 are delivered synchronously inside subscribe() (see `sy`)
           Faults,     \* TRUE: sequence_equal's comparer may also raise (code 4) or be non-symmetric (code 5)
           Mode,       \* "init": scenario chosen in Init, canonical instants (exhaustive runs)
                       \* "gen" : timelines built notification by notification (for -simulate on
@@ -71,13 +72,20 @@ ALLTERMS == {"C", "E", "U"}
 (* ---- scenario families ------------------------------------------------------------------ *)
 Fam(ops, nsrc, maxlen, mint, maxt, terms, disposes, din) ==
   [ops |-> ops, nsrc |-> nsrc, maxlen |-> maxlen, mint |-> mint, maxt |-> maxt, terms |-> terms,
-   disposes |-> disposes, din |-> din]
-F0 == Fam(Ops, NSrc, MaxLen, MinT, MaxT, Terms, Disposes, DisposeIn)
+   disposes |-> disposes, din |-> din, sync |-> FALSE]
+SyncFam(ops, nsrc, maxlen, maxt, terms) ==          \* instants 0..maxt, instant 0 = synchronous delivery
+  [Fam(ops, nsrc, maxlen, 0, maxt, terms, FALSE, 0) EXCEPT !.sync = TRUE]
+F0 == [Fam(Ops, NSrc, MaxLen, MinT, MaxT, Terms, Disposes, DisposeIn) EXCEPT !.sync = Sync]
 Families ==
   CASE Preset = "quick" ->
          {Fam(NARY, {1, 2}, 2, 1, 3, ALLTERMS, FALSE, 0),                 \* every pair of timelines, 3 instants
-          Fam(NARY, {3}, 1, 1, 2, {"C", "U"}, FALSE, 0),                   \* every triple of short timelines
-          Fam(NARY \cup GROWTH3, {2}, 1, 1, 2, ALLTERMS, TRUE, 1)}         \* growth operators; dispose at an instant / inside on_next
+          Fam(NARY, {3}, 1, 1, 2, {"C", "U"}, FALSE, 0),                   \* every triple of short timelines, 2 instants
+          Fam(NARY \ {"amb"}, {3}, 2, 1, 1, {"C", "U"}, FALSE, 0),         \* every triple of <= 2-element timelines at ONE instant
+                                                                          \* (a source that ran ahead while another one's buffer drains)
+          Fam(GROWTH3, {2}, 1, 1, 2, ALLTERMS, FALSE, 0),                  \* growth operators
+          Fam(NARY \cup GROWTH3, {2}, 1, 1, 2, {"C", "U"}, TRUE, 1),       \* dispose at an instant / inside on_next
+          SyncFam(NARY, {2}, 1, 1, {"C", "U"}),                            \* sources that deliver inside subscribe()
+          SyncFam({"with_latest_from"}, {3}, 1, 1, {"C", "U"})}
     [] Preset = "seqeq_quick" ->   \* sequence_equal(observable) for the C06 check's quick tier
          {Fam({"sequence_equal"}, {2}, 2, 1, 2, {"C"}, FALSE, 0),
           Fam({"sequence_equal"}, {2}, 1, 1, 2, ALLTERMS, FALSE, 0)}
@@ -99,10 +107,11 @@ ParamsOf(o, f) == CASE o = "zip_with_iterable" -> [m : 0..(f.maxlen + 1), cmp : 
                     [] OTHER                   -> {[m |-> 0, cmp |-> 0]}
 
 VARIABLES op, n, par, lanes, dsp, dk,                    \* the scenario (dk: dispose inside the dk-th on_next, 0 = no)
+          sy,                                            \* scenario: instant-0 notifications are synchronous (below)
           g, glen,                                       \* generation phase (Mode = "gen"): lanes finished so far
                                                          \* (n + 1 = the run has started), length drawn for the next
           pos, st, out, done, disposed, unsub, last, np, now, branched   \* the run
-vars == <<op, n, par, lanes, dsp, dk, g, glen, pos, st, out, done, disposed, unsub, last, np, now, branched>>
+vars == <<op, n, par, lanes, dsp, dk, sy, g, glen, pos, st, out, done, disposed, unsub, last, np, now, branched>>
 
 (* ---- timelines ------------------------------------------------------------------------ *)
 NonDec(m, f) == {h \in [1..m -> f.mint..f.maxt] : \A j \in 1..(m - 1) : h[j] <= h[j + 1]}
@@ -271,20 +280,20 @@ Init ==
      /\ \E f \in Families :
           /\ op \in f.ops /\ n \in ArityOf(op, f) /\ par \in ParamsOf(op, f)
           /\ lanes \in [1..n -> LaneSet(op, f)]
-          /\ dsp \in DspSet(f) /\ dk \in DkSet(dsp, f)
+          /\ dsp \in DspSet(f) /\ dk \in DkSet(dsp, f) /\ sy = f.sync
      /\ NoGap(lanes, n, dsp)
      /\ g = n + 1 /\ glen = NOLEN /\ RunInit(n)
   \/ /\ Mode = "gen"
      /\ op \in Ops /\ n \in ArityOf(op, F0) /\ par \in ParamsOf(op, F0)
      /\ lanes = [i \in 1..n |-> <<>>]
-     /\ dsp \in DspSet(F0) /\ dk \in DkSet(dsp, F0)
+     /\ dsp \in DspSet(F0) /\ dk \in DkSet(dsp, F0) /\ sy = F0.sync
      /\ g = 0 /\ glen = NOLEN /\ RunInit(n)
   \/ /\ Mode = "file"
      /\ \E x \in 1..Len(Scenarios) :
           /\ op = Scenarios[x].op /\ n = Scenarios[x].n /\ par = Scenarios[x].par
           /\ lanes = Scenarios[x].lanes
           /\ dsp = (IF Scenarios[x].dsp < 0 THEN NEVER ELSE Scenarios[x].dsp)
-          /\ dk = Scenarios[x].dk
+          /\ dk = Scenarios[x].dk /\ sy = Scenarios[x].sy
      /\ g = n + 1 /\ glen = NOLEN /\ RunInit(n)
 
 \* Mode = "gen": lane g+1 is built one notification per step - first its length is drawn (so
@@ -304,22 +313,40 @@ Gen ==
            \/ \E tm \in (Terms \ {"U"}) : \E t \in lt..MaxT :
                 lanes' = [lanes EXCEPT ![i] = Append(cur, [t |-> t, k |-> tm, v |-> 0])]
         /\ g' = g + 1 /\ glen' = NOLEN
-  /\ UNCHANGED <<op, n, par, dsp, dk>> /\ UNCHANGED RunVars
+  /\ UNCHANGED <<op, n, par, dsp, dk, sy>> /\ UNCHANGED RunVars
 \* in NEVER-as--1 form, for the export
 Ext(x) == IF x = NEVER THEN 0 - 1 ELSE x
 \* the scenario is complete: print it (only the states a simulation actually visits take this
 \* step, so one line per drawn scenario) and start the run
 Start ==
   /\ g = n /\ g' = n + 1
-  /\ PrintT(ToJson([op |-> op, n |-> n, par |-> par, lanes |-> lanes, dsp |-> Ext(dsp), dk |-> dk]))
-  /\ UNCHANGED <<op, n, par, lanes, dsp, dk, glen>> /\ UNCHANGED RunVars
+  /\ PrintT(ToJson([op |-> op, n |-> n, par |-> par, lanes |-> lanes, dsp |-> Ext(dsp), dk |-> dk, sy |-> sy]))
+  /\ UNCHANGED <<op, n, par, lanes, dsp, dk, sy, glen>> /\ UNCHANGED RunVars
 
 Live(i) == unsub[i] = NEVER /\ pos[i] <= Len(lanes[i])
 Due(i)  == IF Live(i) THEN lanes[i][pos[i]].t ELSE INF
 DspDue  == IF dsp # NEVER /\ ~done THEN dsp ELSE INF
 MinDue  == LET S == {Due(i) : i \in 1..n} \cup {DspDue} IN CHOOSE m \in S : \A x \in S : m <= x
+(* Synchronous delivery (sy = TRUE).  A source may hand over notifications from inside its
+   subscribe() call - a BehaviorSubject / replaying source that HOLDS a value, `create` with a
+   direct on_next.  Those are the lane's instant-0 notifications.  They are not a tie between
+   independently scheduled events: the operator's own subscribe calls cause them, so
+   (a) a lane's synchronous notifications are delivered as one block (the next source is not even
+       subscribed before the block ends);
+   (b) in which order the operator subscribes its sources is left open (DESIGN 3.6) EXCEPT where the
+       statement decides: "with_latest_from emits only on primary elements once every other source
+       has a value" - a secondary that holds a value at subscription has one at every instant at
+       which a primary element can exist, so its synchronous value precedes the primary's
+       synchronous elements; an operator that listens to the primary first drops elements although
+       every other source has a value.  (Scheduled coincidences - cold or hot sources on the same
+       virtual tick, instant 0 included when sy = FALSE - remain ties: both orders allowed.)      *)
+SyncPending(j) == Live(j) /\ Due(j) = 0
+SyncOK(i) == (sy /\ Due(i) = 0) =>
+               /\ (last # 0 /\ SyncPending(last)) => i = last
+               /\ (op = "with_latest_from" /\ i = 1) => \A j \in 2..n : ~SyncPending(j)
+
 \* more than one thing can happen next: a tie between lanes, or a reaction with a choice
-Choices == Cardinality({i \in 1..n : Live(i) /\ Due(i) = MinDue}) + (IF dsp # NEVER /\ DspDue = MinDue THEN 1 ELSE 0)
+Choices == Cardinality({i \in 1..n : Live(i) /\ Due(i) = MinDue /\ SyncOK(i)}) + (IF dsp # NEVER /\ DspDue = MinDue THEN 1 ELSE 0)
 
 IsN(x) == x.k = "N"
 CountN(s) == Len(SelectSeq(s, IsN))
@@ -328,7 +355,7 @@ CutAt(em, j) == IF dk = 0 \/ j < 1 \/ j > CountN(em) THEN 0
                 ELSE CHOOSE x \in 1..Len(em) : em[x].k = "N" /\ CountN(SubSeq(em, 1, x)) = j
 
 Fire(i) ==
-  /\ g = n + 1 /\ ~done /\ Live(i) /\ Due(i) = MinDue
+  /\ g = n + 1 /\ ~done /\ Live(i) /\ Due(i) = MinDue /\ SyncOK(i)
   /\ LET ev == lanes[i][pos[i]]
          rs == React(op, par, n, st, i, ev) IN
      \E r \in rs :
@@ -343,7 +370,7 @@ Fire(i) ==
                                     ELSE NEVER]
         /\ pos' = [pos EXCEPT ![i] = @ + 1]
         /\ branched' = (branched \/ Choices > 1 \/ Cardinality(rs) > 1)
-  /\ UNCHANGED <<op, n, par, lanes, dsp, dk, g, glen>>
+  /\ UNCHANGED <<op, n, par, lanes, dsp, dk, sy, g, glen>>
 
 \* the subscriber disposes at instant dsp, before or after the lanes' events of that instant
 Dispose ==
@@ -351,7 +378,7 @@ Dispose ==
   /\ done' = TRUE /\ disposed' = TRUE /\ now' = dsp
   /\ unsub' = [j \in 1..n |-> IF unsub[j] # NEVER THEN unsub[j] ELSE dsp]
   /\ branched' = (branched \/ Choices > 1)
-  /\ UNCHANGED <<op, n, par, lanes, dsp, dk, g, glen, pos, st, out, last, np>>
+  /\ UNCHANGED <<op, n, par, lanes, dsp, dk, sy, g, glen, pos, st, out, last, np>>
 
 Next == Gen \/ Start \/ Dispose \/ \E i \in 1..n : Fire(i)
 Spec == Init /\ [][Next]_vars
@@ -475,7 +502,7 @@ Width == \A j \in 1..Len(out) :
 
 (* ---- export ---------------------------------------------------------------------------------- *)
 Proj(o) == [j \in 1..Len(o) |-> [at |-> o[j].at, k |-> o[j].k, v |-> o[j].v]]
-Export == Final => PrintT(ToJson([scn |-> [op |-> op, n |-> n, par |-> par, lanes |-> lanes, dsp |-> Ext(dsp), dk |-> dk],
+Export == Final => PrintT(ToJson([scn |-> [op |-> op, n |-> n, par |-> par, lanes |-> lanes, dsp |-> Ext(dsp), dk |-> dk, sy |-> sy],
                                   obs |-> [out |-> Proj(out), unsub |-> [i \in 1..n |-> Ext(unsub[i])], w |-> st.w,
                                            disposed |-> disposed, amb |-> branched]]))
 ================================================================================
